@@ -38,6 +38,16 @@
  *      or, when the message fills the buffer, ends in a prefix of it ('-' where the report has no file name: read
  *      errors name the descriptor); serr: it contains the strerror text of the scripted errno (or fills the buffer).
  *      The message text itself is never printed.
+ *   DR <r|b|a|w> <hexfile> <offset> <depth|fd> <sched>   json_object_from_fd_ex / json_object_from_fd on a descriptor
+ *                                          the CALLER opened (read-only | read-write | read-write O_APPEND |
+ *                                          write-only) and left standing at <offset> of a regular file
+ *      -> DR <the R fields up to referr> <endoff> <=|CHANGED> <leak>     ref: the two-step parse of file[offset:];
+ *                                          endoff: where the descriptor stands afterwards; =: the file is untouched
+ *   DW <w|b|a|r> <hexold> <offset> <tree> <flags> <sched> <serhex>   json_object_to_fd likewise
+ *      -> DW <rc> <msg> <writes> <delivered> <ser> <endoff> <file> <leak>
+ *   Every line: lseek / pread / pwrite / fstat / ftruncate / fsync / fdatasync / dup / dup2 / fcntl / readv /
+ *   writev / mmap / fdopen / posix_fadvise of json_util.c are redirected to recording stubs (lseek, pread, fstat,
+ *   ftruncate, fsync behave as on a regular file); any such call appends " OTHER:<name>+<name>...".
  *   S <tree> <flags>                       serialization only (used by the generator)
  *      -> S <ser>
  * msg: json_util_get_last_err() != NULL after the call (the message is cleared before it);
@@ -67,6 +77,8 @@
 #include <sys/stat.h>
 #include <fcntl.h>
 #include <unistd.h>
+#include <sys/uio.h>
+#include <sys/mman.h>
 #include "snprintf_compat.h"
 #include "debug.h"
 #include "json_inttypes.h"
@@ -97,6 +109,9 @@ static struct {
 	int fsmode, file, rd, wr, app; size_t off; int oflags, oflags_seen;
 	long pcalls; int pdepth; unsigned char *pbuf; size_t plen;
 	struct json_tokener *ptok; const char *pstr; int p2bad;
+	int modes;                                      /* rd/wr/app of the descriptor are in force */
+	unsigned char *fbuf; size_t flen, fcap, wpos; int dw;   /* DW: the file behind the descriptor */
+	unsigned other;                                 /* calls other than read/write/open/close */
 } vf;
 
 static int errno_of(const char *name, size_t n)
@@ -187,7 +202,7 @@ static ssize_t vf_read(int fd, void *buf, size_t count)
 	size_t n, avail = vf.len - vf.pos;
 	vf.reads++;
 	if (fd != THE_FD) vf.badfd++;
-	if (vf.fsmode && !vf.rd) { errno = EBADF; return -1; }
+	if ((vf.fsmode || vf.modes) && !vf.rd) { errno = EBADF; return -1; }
 	x = sched_next();
 	if (x == -1) { if (vf.fail_errno) errno = vf.fail_errno; return -1; }
 	n = (x == -2) ? count : ((size_t)(x < 0 ? 0 : x) < count ? (size_t)(x < 0 ? 0 : x) : count);
@@ -205,7 +220,7 @@ static ssize_t vf_write(int fd, const void *buf, size_t count)
 	size_t n;
 	vf.writes++;
 	if (fd != THE_FD) vf.badfd++;
-	if (vf.fsmode && !vf.wr) { errno = EBADF; return -1; }
+	if ((vf.fsmode || vf.modes) && !vf.wr) { errno = EBADF; return -1; }
 	x = sched_next();
 	if (x == -1) { if (vf.fail_errno) errno = vf.fail_errno; return -1; }
 	n = (x == -2) ? count : ((size_t)(x < 0 ? 0 : x) < count ? (size_t)(x < 0 ? 0 : x) : count);
@@ -216,6 +231,13 @@ static ssize_t vf_write(int fd, const void *buf, size_t count)
 		size_t at = vf.app ? vfs[vf.file].len : vf.off;
 		vfs_put(vf.file, at, (const unsigned char *)buf, n);
 		vf.off = at + n;
+	}
+	if (vf.dw && n) {
+		size_t at = vf.app ? vf.flen : vf.wpos;
+		if (at + n > vf.fcap) { vf.devoverflow = 1; n = vf.fcap - at; }
+		memcpy(vf.fbuf + at, buf, n);
+		if (at + n > vf.flen) vf.flen = at + n;
+		vf.wpos = at + n;
 	}
 	return (ssize_t)n;
 }
@@ -250,6 +272,83 @@ static int vf_close(int fd)
 	return 0;
 }
 
+/* ---- everything else json_util.c could do to a descriptor: recorded ---- */
+static const char *other_names[] = {"lseek", "pread", "pwrite", "fstat", "ftruncate", "fsync", "fdatasync", "dup", "dup2",
+                                    "fcntl", "readv", "writev", "mmap", "fdopen", "posix_fadvise"};
+enum { X_LSEEK, X_PREAD, X_PWRITE, X_FSTAT, X_FTRUNCATE, X_FSYNC, X_FDATASYNC, X_DUP, X_DUP2, X_FCNTL, X_READV, X_WRITEV,
+       X_MMAP, X_FDOPEN, X_FADVISE, X_N };
+static void put_other(unsigned mask)
+{
+	int i, first = 1;
+	if (!mask) return;
+	printf(" OTHER:");
+	for (i = 0; i < X_N; i++) if (mask & (1u << i)) { printf("%s%s", first ? "" : "+", other_names[i]); first = 0; }
+}
+/* position and size of the file behind the descriptor, NULL when there is none (a bare sink) */
+static size_t *vf_posp(size_t *size)
+{
+	if (vf.dw) { *size = vf.flen; return &vf.wpos; }
+	if (vf.fsmode && vf.opens && vf.wr && !vf.rd) { *size = vfs[vf.file].len; return &vf.off; }
+	if (vf.data) { *size = vf.len; return &vf.pos; }
+	return NULL;
+}
+static off_t vf_lseek(int fd, off_t off, int whence)
+{
+	size_t size, *p = vf_posp(&size);
+	long long base;
+	(void)fd;
+	vf.other |= 1u << X_LSEEK;
+	if (!p) { errno = ESPIPE; return (off_t)-1; }
+	base = whence == SEEK_SET ? 0 : whence == SEEK_CUR ? (long long)*p : whence == SEEK_END ? (long long)size : -1;
+	if (base < 0 || base + off < 0) { errno = EINVAL; return (off_t)-1; }
+	*p = (size_t)(base + off);
+	if (*p > size && !vf.dw) *p = size;      /* reading beyond the end reads nothing: keep the arithmetic simple */
+	return (off_t)*p;
+}
+static ssize_t vf_pread(int fd, void *buf, size_t n, off_t off)
+{
+	size_t size, *p = vf_posp(&size);
+	const unsigned char *src = vf.dw ? vf.fbuf : vf.data;
+	(void)fd;
+	vf.other |= 1u << X_PREAD;
+	if (!p || !src) { errno = ESPIPE; return -1; }
+	if ((size_t)off >= size) return 0;
+	if (n > size - (size_t)off) n = size - (size_t)off;
+	memcpy(buf, src + off, n);
+	return (ssize_t)n;
+}
+static ssize_t vf_pwrite(int fd, const void *buf, size_t n, off_t off)
+{ (void)fd; (void)buf; (void)n; (void)off; vf.other |= 1u << X_PWRITE; errno = ENOSYS; return -1; }
+static int vf_fstat(int fd, struct stat *st)
+{
+	size_t size = 0, *p = vf_posp(&size);
+	(void)fd;
+	vf.other |= 1u << X_FSTAT;
+	memset(st, 0, sizeof(*st));
+	st->st_mode = p ? (S_IFREG | 0644) : S_IFIFO;
+	st->st_size = (off_t)size;
+	st->st_blksize = 4096;
+	return 0;
+}
+static int vf_ftruncate(int fd, off_t len)
+{
+	(void)fd;
+	vf.other |= 1u << X_FTRUNCATE;
+	if (vf.dw && (size_t)len <= vf.fcap) { if ((size_t)len > vf.flen) memset(vf.fbuf + vf.flen, 0, (size_t)len - vf.flen); vf.flen = (size_t)len; return 0; }
+	if (vf.fsmode && vf.opens && vf.wr && (size_t)len <= vfs[vf.file].len) { vfs[vf.file].len = (size_t)len; return 0; }
+	errno = EINVAL; return -1;
+}
+static int vf_fsync(int fd) { (void)fd; vf.other |= 1u << X_FSYNC; return 0; }
+static int vf_fdatasync(int fd) { (void)fd; vf.other |= 1u << X_FDATASYNC; return 0; }
+static int vf_dup(int fd) { (void)fd; vf.other |= 1u << X_DUP; errno = EMFILE; return -1; }
+static int vf_dup2(int a, int b) { (void)a; (void)b; vf.other |= 1u << X_DUP2; errno = EMFILE; return -1; }
+static int vf_fcntl(int fd, int cmd, ...) { (void)fd; vf.other |= 1u << X_FCNTL; return cmd == F_GETFL ? (vf.rd && vf.wr ? O_RDWR : vf.wr ? O_WRONLY : O_RDONLY) | (vf.app ? O_APPEND : 0) : 0; }
+static ssize_t vf_readv(int fd, const struct iovec *v, int n) { (void)fd; (void)v; (void)n; vf.other |= 1u << X_READV; errno = ENOSYS; return -1; }
+static ssize_t vf_writev(int fd, const struct iovec *v, int n) { (void)fd; (void)v; (void)n; vf.other |= 1u << X_WRITEV; errno = ENOSYS; return -1; }
+static void *vf_mmap(void *a, size_t l, int pr, int fl, int fd, off_t o) { (void)a; (void)l; (void)pr; (void)fl; (void)fd; (void)o; vf.other |= 1u << X_MMAP; errno = ENODEV; return MAP_FAILED; }
+static FILE *vf_fdopen(int fd, const char *m) { (void)fd; (void)m; vf.other |= 1u << X_FDOPEN; errno = EMFILE; return NULL; }
+static int vf_fadvise(int fd, off_t o, off_t l, int adv) { (void)fd; (void)o; (void)l; (void)adv; vf.other |= 1u << X_FADVISE; return 0; }
+
 /* the real parser, recorded */
 static struct json_object *vf_parse_ex(struct json_tokener *t, const char *s, int len)
 {
@@ -270,12 +369,48 @@ static struct json_object *vf_parse_ex(struct json_tokener *t, const char *s, in
 #define open(...) vf_open(__VA_ARGS__)
 #define close(fd) vf_close(fd)
 #define json_tokener_parse_ex(t, s, l) vf_parse_ex(t, s, l)
+#define lseek(fd, o, w) vf_lseek(fd, o, w)
+#define lseek64(fd, o, w) vf_lseek(fd, o, w)
+#define pread(fd, b, n, o) vf_pread(fd, b, n, o)
+#define pread64(fd, b, n, o) vf_pread(fd, b, n, o)
+#define pwrite(fd, b, n, o) vf_pwrite(fd, b, n, o)
+#define pwrite64(fd, b, n, o) vf_pwrite(fd, b, n, o)
+#define fstat(fd, st) vf_fstat(fd, st)
+#define ftruncate(fd, l) vf_ftruncate(fd, l)
+#define fsync(fd) vf_fsync(fd)
+#define fdatasync(fd) vf_fdatasync(fd)
+#define dup(fd) vf_dup(fd)
+#define dup2(a, b) vf_dup2(a, b)
+#define fcntl(...) vf_fcntl(__VA_ARGS__)
+#define readv(fd, v, n) vf_readv(fd, v, n)
+#define writev(fd, v, n) vf_writev(fd, v, n)
+#define mmap(a, l, p, f, fd, o) vf_mmap(a, l, p, f, fd, o)
+#define fdopen(fd, m) vf_fdopen(fd, m)
+#define posix_fadvise(fd, o, l, a) vf_fadvise(fd, o, l, a)
 #include "json_util.c"
 #undef read
 #undef write
 #undef open
 #undef close
 #undef json_tokener_parse_ex
+#undef lseek
+#undef lseek64
+#undef pread
+#undef pread64
+#undef pwrite
+#undef pwrite64
+#undef fstat
+#undef ftruncate
+#undef fsync
+#undef fdatasync
+#undef dup
+#undef dup2
+#undef fcntl
+#undef readv
+#undef writev
+#undef mmap
+#undef fdopen
+#undef posix_fadvise
 
 /* the reference: the same bytes from memory, tokener of the given depth, the two steps the
  * property now reads as "parsing from memory": one call on the bytes and, when that yields no
@@ -363,6 +498,7 @@ static void do_write(int file, char which, const char *open_tok, const char *tre
 	free(vf.dev);
 	printf(" %ld", xa_live - live0);
 	if (vf.badfd) printf(" BADFD");
+	put_other(vf.other);
 	if (vf.devoverflow) printf(" DEVOVERFLOW");
 }
 
@@ -396,6 +532,7 @@ static void do_read(int file, const char *open_tok, const char *hex, const char 
 	free(doc);
 	printf(" %ld", xa_live - live0);
 	if (vf.badfd) printf(" BADFD");
+	put_other(vf.other);
 }
 
 /* ---- P: histories on the in-memory file system ---- */
@@ -419,6 +556,7 @@ static void do_history(char *init, char *steps, long live0)
 {
 	char *save = NULL, *tok, path[] = "/verif-c20/?.json";
 	int first = 1, i, badfd = 0, overflow = 0;
+	unsigned other = 0;
 	vfs_n = 0;
 	if (strcmp(init, "-") != 0)
 		for (tok = strtok_r(init, ",", &save); tok; tok = strtok_r(NULL, ",", &save)) {
@@ -475,7 +613,7 @@ static void do_history(char *init, char *steps, long live0)
 			if (o) json_object_put(o);
 			free(vf.pbuf);
 		}
-		badfd |= vf.badfd != 0; overflow |= vf.devoverflow;
+		badfd |= vf.badfd != 0; overflow |= vf.devoverflow; other |= vf.other;
 	}
 	printf(" | end ");
 	{
@@ -491,7 +629,81 @@ static void do_history(char *init, char *steps, long live0)
 		vfs_clear();
 	}
 	if (badfd) printf(" BADFD");
+	put_other(other);
 	if (overflow) printf(" DEVOVERFLOW");
+}
+
+/* ---- DR / DW: a descriptor the caller opened and positioned ---- */
+static void set_mode(char m)
+{
+	vf.modes = 1;
+	vf.rd = m != 'w'; vf.wr = m != 'r'; vf.app = m == 'a';
+}
+static void do_desc_read(char mode, const char *hex, long offset, const char *depth_s, const char *sched, long live0)
+{
+	size_t n;
+	unsigned char *doc = unhex(hex, &n), *orig;
+	int use_fd = strcmp(depth_s, "fd") == 0;
+	int depth = use_fd ? -1 : atoi(depth_s);
+	int eff = depth == -1 ? JSON_TOKENER_DEFAULT_DEPTH : depth;
+	struct json_object *o;
+	int msg, same;
+	if (offset < 0 || (size_t)offset > n) { printf("BADOFFSET"); free(doc); return; }
+	orig = (unsigned char *)malloc(n ? n : 1);
+	memcpy(orig, doc, n);
+	vf_reset(sched);
+	set_mode(mode);
+	vf.data = doc; vf.len = n; vf.pos = (size_t)offset;
+	o = use_fd ? json_object_from_fd(THE_FD) : json_object_from_fd_ex(THE_FD, depth);
+	msg = json_util_get_last_err() != NULL;
+	printf("DR ");
+	if (o) jv_dump(o); else printf("NULL");
+	printf(" %d %ld ", msg, vf.reads); put_pcalls(); putchar(' ');
+	if (vf.pcalls) { printf("%d ", vf.pdepth); puthex(vf.pbuf, vf.plen); } else printf("- -");
+	putchar(' ');
+	ref_parse(orig + offset, n - (size_t)offset, eff);
+	same = vf.len == n && memcmp(doc, orig, n) == 0;
+	printf(" %zu %s", vf.pos, same ? "=" : "CHANGED");
+	if (o) json_object_put(o);
+	free(vf.pbuf); free(doc); free(orig);
+	printf(" %ld", xa_live - live0);
+	if (vf.badfd) printf(" BADFD");
+	put_other(vf.other);
+}
+static void do_desc_write(char mode, const char *hexold, long offset, const char *tree, int flags, const char *sched, long live0)
+{
+	size_t n, serlen;
+	unsigned char *old = unhex(hexold, &n), *ser;
+	int bad = 0, rc, msg;
+	struct json_object *o = tree_of(tree, &bad);
+	const char *s0;
+	if (bad || offset < 0 || (size_t)offset > n) { printf(bad ? "BADTREE" : "BADOFFSET"); json_object_put(o); free(old); return; }
+	s0 = json_object_to_json_string_ext(o, flags);
+	serlen = s0 ? strlen(s0) : 0;
+	ser = (unsigned char *)malloc(serlen + 1);
+	memcpy(ser, s0 ? s0 : "", serlen);
+	vf_reset(sched);
+	set_mode(mode);
+	vf.dw = 1;
+	vf.fcap = n + 2 * serlen + 64;
+	vf.fbuf = (unsigned char *)malloc(vf.fcap);
+	memcpy(vf.fbuf, old, n);
+	vf.flen = n; vf.wpos = (size_t)offset;
+	vf.devcap = 2 * serlen + 64;
+	vf.dev = (unsigned char *)malloc(vf.devcap);
+	rc = json_object_to_fd(THE_FD, o, flags);
+	msg = json_util_get_last_err() != NULL;
+	printf("DW %d %d %ld ", rc, msg, vf.writes);
+	puthex(vf.dev, vf.devlen); putchar(' ');
+	puthex(ser, serlen);
+	printf(" %zu ", vf.wpos);
+	puthex(vf.fbuf, vf.flen);
+	json_object_put(o);
+	free(ser); free(vf.dev); free(vf.fbuf); free(old);
+	printf(" %ld", xa_live - live0);
+	if (vf.badfd) printf(" BADFD");
+	put_other(vf.other);
+	if (vf.devoverflow) printf(" DEVOVERFLOW");
 }
 
 /* ---- N: what the failure report says, for arbitrary file names ---- */
@@ -544,6 +756,7 @@ static void do_names(char kind, char what, const char *errname, const char *hexn
 	free(vf.dev); free(name); free(nb);
 	printf(" %ld", xa_live - live0);
 	if (vf.badfd) printf(" BADFD");
+	put_other(vf.other);
 }
 
 void run_case(char *rest)
@@ -574,6 +787,16 @@ void run_case(char *rest)
 			if (!tree || !fl || !sc) { printf("BADLINE"); return; }
 			do_write(1, which[0], op_ok, tree, atoi(fl), sc, live0);
 		}
+	} else if (strcmp(op, "DR") == 0) {
+		char *m = strtok_r(NULL, " ", &save), *hex = strtok_r(NULL, " ", &save), *off = strtok_r(NULL, " ", &save);
+		char *d = strtok_r(NULL, " ", &save), *sc = strtok_r(NULL, " ", &save);
+		if (!m || !hex || !off || !d || !sc) { printf("BADLINE"); return; }
+		do_desc_read(m[0], hex, atol(off), d, sc, live0);
+	} else if (strcmp(op, "DW") == 0) {
+		char *m = strtok_r(NULL, " ", &save), *hex = strtok_r(NULL, " ", &save), *off = strtok_r(NULL, " ", &save);
+		char *tree = strtok_r(NULL, " ", &save), *fl = strtok_r(NULL, " ", &save), *sc = strtok_r(NULL, " ", &save);
+		if (!m || !hex || !off || !tree || !fl || !sc) { printf("BADLINE"); return; }
+		do_desc_write(m[0], hex, atol(off), tree, atoi(fl), sc, live0);
 	} else if (strcmp(op, "N") == 0) {
 		char *kind = strtok_r(NULL, " ", &save), *what = strtok_r(NULL, " ", &save);
 		char *en = strtok_r(NULL, " ", &save), *hn = strtok_r(NULL, " ", &save);
